@@ -399,3 +399,50 @@ def idmap_entries(payload: bytes):
         v = d.count()
         out.append((a, b - a, k, b, d.p - b, v))
     return out
+
+
+def zone_field_elements(payload: bytes, pool):
+    """The decoded fields of a well-formed TIME_ZONE payload in stream order:
+    [(start offset, end offset, role, decoded value, previous transition or None)].  Roles as in zone_field_roles;
+    a transition's value is ticks / NEG / POS, `previous` is what the reader is given when it decodes that transition."""
+    d = Dec(payload, None)          # strings are reported as pool indexes
+    out = []
+
+    def el(role, fn, prev=None):
+        a = d.p
+        v = fn()
+        out.append((a, d.p, role, v, prev))
+        return v
+
+    def yo():
+        el("tail-flags", d.byte)
+        el("tail-month", d.count)
+        el("tail-dom", d.signed)
+        el("tail-tod", d.millis)
+
+    el("id", d.count)
+    t = el("type", d.byte)
+    if t == 1:
+        el("fixed-offset", d.millis)
+        if d.more():
+            el("fixed-name", d.count)
+    elif t == 2:
+        n = el("count", d.count)
+        start = el("transition", lambda: d.transition(None))
+        for _ in range(n):
+            el("name", d.count)
+            el("offset", d.millis)
+            el("offset", d.millis)
+            start = el("transition", lambda start=start: d.transition(start), start)
+        if el("tail-flag", d.byte) == 1:
+            el("tail-offset", d.millis)
+            el("tail-name", d.count)
+            yo()
+            el("tail-name", d.count)
+            yo()
+            el("tail-offset", d.millis)
+    else:
+        raise Bad("zone type")
+    if d.more():
+        raise Bad("trailing bytes")
+    return out
